@@ -29,6 +29,10 @@ def sh(cmd, cwd, timeout=1800):
 def main():
     a = sys.argv[1:]
     opts = {}
+    race = []
+    if "--race" in a:
+        a.remove("--race")
+        race = ["-race"]
     for k in ("--place", "--caught-by", "--tests", "--needs"):
         if k in a:
             i = a.index(k)
@@ -51,7 +55,7 @@ def main():
     res = {}
     try:
         shutil.copy(demo_src, os.path.join(wt, place))
-        rc, out = sh(["go", "test", "-count=1", "-vet=off", "-run", "Seeded|seeded", pkg], wt)
+        rc, out = sh(["go", "test", "-count=1", "-vet=off"] + race + ["-run", "Seeded|seeded", pkg], wt)
         res["demo_on_unmodified"] = "pass" if rc == 0 and "no tests to run" not in out else "FAIL"
         res["demo_on_unmodified_tail"] = out[-400:]
         os.remove(os.path.join(wt, place))
@@ -64,7 +68,7 @@ def main():
         if rc != 0:
             res["existing_tests_tail"] = out[-800:]
         shutil.copy(demo_src, os.path.join(wt, place))
-        rc, out = sh(["go", "test", "-count=1", "-vet=off", "-run", "Seeded|seeded", pkg], wt)
+        rc, out = sh(["go", "test", "-count=1", "-vet=off"] + race + ["-run", "Seeded|seeded", pkg], wt)
         res["demo_with_change"] = "fail" if rc != 0 else "PASSES"
         res["demo_with_change_tail"] = out[-400:]
     finally:
